@@ -78,3 +78,27 @@ def all_strings(alphabet, maxlen):
     for L in range(maxlen + 1):
         for t in itertools.product(alphabet, repeat=L):
             yield bytes(t)
+
+
+# lengths at which chunked / folded / buffered implementations change behaviour (powers of two and their
+# neighbours, the 16-bit limit); used for checksums, payloads and reads
+LONG_LENGTHS = (255, 256, 257, 1023, 1024, 1025, 4090, 4091, 4092, 4093, 4096, 4097, 4100, 5000, 8188, 8191, 8192,
+                8193, 9000, 12345, 16384, 32768, 40000, 65531, 65535)
+
+
+def long_bodies(rng, quick=True):
+    """(length, bytes) with random, all-ff and ramp contents at LONG_LENGTHS (quick: a rotating subset)."""
+    out = []
+    ls = LONG_LENGTHS if not quick else tuple(rng.sample(LONG_LENGTHS, 9)) + (4092, 4093, 8192, 65535)
+    for L in ls:
+        out.append(bytes(rng.getrandbits(8) for _ in range(L)))
+        if not quick or rng.random() < 0.3:
+            out.append(b"\xff" * L)
+    return out
+
+
+def wellformed_py(f):
+    """Independent reading of the frame definition (used for inputs too long for the model's closed-form sums,
+    which are quadratic): b5 62, class, id, LE length == actual payload length, textbook Fletcher-8."""
+    return (len(f) >= 8 and f[0:2] == b"\xb5\x62" and int.from_bytes(f[4:6], "little") == len(f) - 8
+            and f[-2:] == fletcher(f[2:-2]))
